@@ -150,7 +150,10 @@ class _DatePatternHelper:
                 text_values = self.__format_info.long_month_names
 
             def format_action(value: T, sb: StringBuilder) -> None:
-                sb.append(text_values[self.__getter(value)])  # type: ignore[arg-type]
+                # A calendar may have more months than the culture has names for (Badi: 19): such a month has
+                # no name, exactly like the 13th entry of the table in a 12-month culture.
+                month: int = self.__getter(value)  # type: ignore[arg-type]
+                sb.append(text_values[month] if month < len(text_values) else "")
 
             return format_action
 
